@@ -8,6 +8,7 @@
 from collections import defaultdict
 from itertools import chain
 
+import copy
 import nbformat
 
 import nbdime.log
@@ -278,7 +279,8 @@ def get_outputs_and_note(base, removes, patches):
         suboutputs = [patch(base, e.diff)]
     else:
         note = " <unchanged>"
-        suboutputs = [base]
+        # Copy: the decisions must not alias the base notebook's own output
+        suboutputs = [copy.deepcopy(base)]
     return suboutputs, note
 
 
